@@ -61,6 +61,17 @@ CLAIMED.update({
    technique="Coq proof (fuel/depth invariant, refinement order on results, rank argument) + vm_compute correspondence",
    ref="4 (C19)"),
 })
+CLAIMED.update({
+ "C01": dict(
+   text="Coq proofs that each of the 20 leaf core components of the model reports exactly the results its W3C textual definition prescribes (leaf_spec), lifted to shapes; "
+        "range components and lessThan(OrEquals) proved equal to the SPARQL 1.1 operator mapping (exact rational numerics, code-point strings, booleans, dateTime with the timezone rule, date; "
+        "everything else incomparable => violation); languageIn = RFC 4647 basic filtering; uniqueLang = one result per tag used twice; class = SHACL instance on cyclic graphs. "
+        "Model tied to /repo by differential correspondence of full reports over all components x all value kinds (incl. ill-typed literals), closed+ignoredProperties included.",
+   note=BASE_NOTE + "Literal lexical-to-value mapping (rdflib), regex matching (Python re) and string lengths enter the model as data computed by the harness; decimal->double promotion rounding is not modelled. "
+        "Two deliberate deviations of /repo are listed as known findings (sh:closed ignores rdf:type rdfs:Resource; sh:datatype rdfs:Literal/rdfs:Datatype).",
+   technique="Coq proof (component semantics = textual definition; three-way compare = SPARQL operator table) + vm_compute correspondence",
+   ref="4 (C01)"),
+})
 NOT_YET = {}
 ALL = ["C%02d" % i for i in range(1, 21)]
 REASONS = {}
